@@ -40,6 +40,16 @@ type cfgCase struct {
 	p    protocol.Protocol
 }
 
+// fresh returns a copy of the configuration that shares no slice with the original: a parser that rearranged or edited
+// the lists it was given would otherwise change the expectations of later cases behind the harness' back.
+func fresh(p protocol.Protocol) protocol.Protocol {
+	p.MultihashAlgorithms = append([]uint(nil), p.MultihashAlgorithms...)
+	p.SignatureAlgorithms = append([]string(nil), p.SignatureAlgorithms...)
+	p.KeyAlgorithms = append([]string(nil), p.KeyAlgorithms...)
+	p.Patches = append([]string(nil), p.Patches...)
+	return p
+}
+
 func toConfig(p protocol.Protocol) sidetree.Config {
 	c := sidetree.Config{MaxOperationSize: uint64(p.MaxOperationSize), MaxOperationHashLength: uint64(p.MaxOperationHashLength), MaxDeltaSize: uint64(p.MaxDeltaSize),
 		NonceSize: p.NonceSize, SignatureAlgorithms: p.SignatureAlgorithms, KeyAlgorithms: p.KeyAlgorithms, Patches: p.Patches}
@@ -72,7 +82,7 @@ func Run(r *core.Run) {
 	r.Rule = "valid requests: 4 types x 5 key types x 8 patch kinds (+ nonce-carrying keys, anchor origin variants, sha2-512 for one hash at a time) x configurations varying one axis at a time " +
 		"(each size limit exactly at and one below the request's size, each list with / without the used value and with an irrelevant extra value, nonce size n/n-1/n+1, every other numeric parameter changed); " +
 		"plus one labelled mutation per rule of the statement; oracle: independent acceptance predicate, both directions, and the returned operation's type, suffix, id, bytes and anchor origin; " +
-		"every (request, configuration) pair also as the second call on one shared parser after each of 6 first calls (the same request through each batch-mode entry point and through Parse, the neighbouring request in both modes); " +
+		"every (request, configuration) pair also as the second call on one shared parser after each of 6 first calls (the same request through each batch-mode entry point and through Parse, the neighbouring request in both modes), and every valid request after each of the refused requests (also on a second parser built from the same configuration value); " +
 		"distinct = distinct (request, configuration) pairs and two-call histories; non-trivial = all"
 	r.Assumptions = []string{"independent acceptance predicate ref/sidetree.Acceptable + ref/rules written from the statement", "signature validity and delta binding of update/recover are not part of the non-batch parser's rules (C02)",
 		"anchor-origin and time validators are the permissive defaults"}
@@ -349,7 +359,7 @@ func Run(r *core.Run) {
 				return nil
 			}
 			r.Case(id, func() *core.Fail {
-				op, err := operationparser.New(cc.p).Parse(ns, rc.bytes)
+				op, err := operationparser.New(fresh(cc.p)).Parse(ns, rc.bytes)
 				return judge(id, op, err, "")
 			})
 			r.Observe(id)
@@ -370,13 +380,34 @@ func Run(r *core.Run) {
 				h := h
 				hid := fmt.Sprintf("%s/after-%d", id, hi)
 				r.Case(hid, func() *core.Fail {
-					p := operationparser.New(cc.p)
+					p := operationparser.New(fresh(cc.p))
 					h.f(p)
 					op, err := p.Parse(ns, rc.bytes)
 					return judge(hid, op, err, h.name)
 				})
 			}
 			histories.Add(6)
+			// a valid request after each refused request (one per rule of the statement): whatever a refusal leaves behind in the parser
+			// (or in the configuration it was built from) must not change the verdict on, or the report about, the next request
+			if i < nValid {
+				for mi := nValid; mi < len(reqs); mi++ {
+					first := reqs[mi]
+					hid := fmt.Sprintf("%s/after-refused-%d", id, mi-nValid)
+					r.Case(hid, func() *core.Fail {
+						cfg := fresh(cc.p)
+						p := operationparser.New(cfg)
+						_, _ = p.Parse(ns, first.bytes)
+						op, err := p.Parse(ns, rc.bytes)
+						if f := judge(hid, op, err, "Parse of "+first.label); f != nil {
+							return f
+						}
+						// and a second parser built from the same configuration value
+						op, err = operationparser.New(cfg).Parse(ns, rc.bytes)
+						return judge(hid, op, err, "Parse of "+first.label+" on another parser built from the same configuration value")
+					})
+				}
+				histories.Add(int64(len(reqs) - nValid))
+			}
 			if ok {
 				r.Class("acceptable")
 			} else {
